@@ -8,7 +8,7 @@ Theorem C09_const_name_legal : forall n : name, legal_ident (to_rust_const_name 
 Proof. exact const_name_legal. Qed.
 
 (* Field names are legal except on the recorded class: the result `_` (empty / all-symbol names),
-   `r#crate`, `r#super`, or a verbatim `r#...` pass-through that is not a raw identifier. *)
+   or a verbatim `r#...` pass-through that is not a raw identifier. *)
 Theorem C09_field_name_legal : forall n : name, legal_ident (to_rust_field_name n) || known_field n = true.
 Proof. exact field_name_legal. Qed.
 
@@ -31,8 +31,11 @@ Definition asc (s : string) : name := map Asc (la s).
 
 Theorem C09_refuted_type_self : legal_ident (to_rust_type_name (asc "Self")) = false.
 Proof. vm_compute. reflexivity. Qed.
-Theorem C09_refuted_field_crate : legal_ident (to_rust_field_name (asc "crate")) = false.
-Proof. vm_compute. reflexivity. Qed.
+(* repaired (fix: commit): `crate` and `super` get a trailing underscore like `self` *)
+Example C09_field_crate_super_repaired :
+  to_rust_field_name (asc "crate") = la "crate_" /\ to_rust_field_name (asc "super") = la "super_"
+  /\ legal_ident (to_rust_field_name (asc "crate")) = true /\ legal_ident (to_rust_field_name (asc "Super")) = true.
+Proof. vm_compute. repeat split; reflexivity. Qed.
 Theorem C09_refuted_field_empty : legal_ident (to_rust_field_name (asc "@")) = false.
 Proof. vm_compute. reflexivity. Qed.
 Theorem C09_refuted_field_raw : legal_ident (to_rust_field_name (asc "r#1x")) = false.
